@@ -44,7 +44,7 @@ from .values import (
 
 BUILTINS = {
     "len", "range", "enumerate", "zip", "sorted", "max", "min", "sum", "abs", "int", "float", "list", "tuple",
-    "isinstance", "print", "str", "bool", "map", "round", "dict", "reversed", "super", "all", "any",
+    "isinstance", "print", "str", "bool", "map", "round", "dict", "reversed", "super", "all", "any", "hasattr",
 }
 
 # uninterpreted real functions with a few axioms, instantiated on demand
@@ -65,13 +65,13 @@ def used(ex, name):
 
 
 def lib_name(ex, src, orig):
-    if src == "math":
+    if src in ("math", "numpy"):
         if orig == "pi":
             from .engine import PI
 
             used(ex, "math.pi (3.14159265358 < PI < 3.14159265359)")
             return PI
-        return Builtin(f"math.{orig}")
+        return Builtin(f"{src}.{orig}")
     if src in ("numpy", "scipy.optimize", "scipy.interpolate", "scipy.linalg.lapack", "json", "pathlib", "typing", "enum", "warnings", "calendar", "copy"):
         return Builtin(f"{src}.{orig}")
     if src.startswith("pygfunction"):
@@ -93,6 +93,8 @@ def module_attr(ex, m: ModuleRef, attr, mod):
 
 
 def call_builtin(ex, st, name, args, kwargs, node, mod):
+    if name in ("datetime.datetime.now", "datetime.now"):
+        return Opaque("datetime", {})
     fn = _TABLE.get(name)
     if fn is None:
         raise Unsupported(f"library function {name} has no model (line {getattr(node, 'lineno', '?')})")
@@ -465,6 +467,13 @@ def b_all(ex, st, args, kwargs, node, is_all=True):
         return all(ts) if is_all else any(ts)
     zs = [z3.BoolVal(t) if isinstance(t, bool) else t for t in ts]
     return z3.And(*zs) if is_all else z3.Or(*zs)
+
+
+def b_hasattr(ex, st, args, kwargs, node):
+    o, name = args
+    if isinstance(o, PyObj):
+        return name in o.fields or ex.method_of(o.cls, name) is not None
+    raise Unsupported("hasattr on a non-object")
 
 
 def b_dict(ex, st, args, kwargs, node):
@@ -929,6 +938,8 @@ def construct(ex, st, cref: ClassRef, args, kwargs, node, mod):
 
 
 def opaque_attr(ex, st, o, attr, node):
+    if o.kind in ("datetime", "str"):
+        return UFunM(lambda ex_, st_, args, kwargs, node_: Opaque("str", {}))
     raise Unsupported(f"attribute {attr} of opaque {o.kind}")
 
 
@@ -1142,5 +1153,7 @@ _TABLE = {
     "warnings.warn": b_print,
     "scipy.optimize.brentq": m_brentq,
     "all": b_all, "any": lambda ex, st, args, kwargs, node: b_all(ex, st, args, kwargs, node, is_all=False),
+    "hasattr": b_hasattr,
+    "datetime.datetime": None,
     "time.time": lambda ex, st, args, kwargs, node: z3.Real(uid("time")),
 }
